@@ -331,6 +331,7 @@ def truncation(chk, tier, files, d, r):
         sample = [l for l in lens if l % 16 == 0 or l >= len(data) - 2 or l < 3]
         if tier == 'quick':
             sample = sample[::4] + [len(data) - 1]
+        sample = sorted(set(sample))
         for l in sample:
             sub = '%s/d%d' % (tdir, l)
             os.makedirs(sub + '/acc')
